@@ -151,7 +151,7 @@ def run(ctx):
         kinds["resolved" if g >= 0 else {-1: "UnknownAPIKey", -2: "UnknownEntity"}.get(g, "other")] = kinds.get("resolved" if g >= 0 else {-1: "UnknownAPIKey", -2: "UnknownEntity"}.get(g, "other"), 0) + 1
     cov = {
         "exhaustive": False, "evaluations": len(cases), "distinct_nontrivial": len(set(cases)),
-        "rule": "every (api, version, type) of the package x every entity type, version +-1, by key and key +-1, plus "
+        "rule": "every (api, version, type) of the package x every entity type, cold-start probe: fresh interpreters in which 4 unsynchronised threads resolve the same 60 entries before any schema module is loaded; version +-1, by key and key +-1, plus "
                 "seeded random keys/names/versions; distinct lookups counted; all index entries are covered exhaustively",
         "traces_validated_against_impl": len(cases), "outcome_distribution": kinds,
         "index_entries": len(truth), "api_keys": len(keys), "cold_start_concurrent_lookups": n_cold,
